@@ -1,4 +1,5 @@
 #include "machine.h"
+#include <malloc.h>
 
 const char *mop_names[MOP_N] = {
     "bits", "solid", "linear", "radial", "conical",
@@ -13,7 +14,7 @@ const char *mop_names[MOP_N] = {
     "glyphs",
     "r_init_rects", "r_binop", "r_rectop", "r_copy", "r_inverse", "r_conv", "r_fini",
     "filter_create", "compute_region",
-    "scribble", "alias",
+    "scribble", "alias", "bits_huge",
 };
 
 const pixman_format_code_t sim_formats[] = {
@@ -722,6 +723,22 @@ install_new_image (machine_t *m, int slot, int kind, pixman_image_t *img, const 
     s->serial = ++m->serial;
 }
 
+/* The block pixman allocated for the pixels must hold the image it describes.  Only
+ * looked at when the pixel pointer is the start of that block (free_me == bits). */
+static void
+check_own_storage (machine_t *m, const mslot_t *s, pixman_image_t *img)
+{
+    size_t have;
+    if (!img->bits.free_me || (void *)img->bits.free_me != (void *)img->bits.bits) return;
+    have = malloc_usable_size (img->bits.free_me);
+    if (have < s->storage && !m->own_violation)
+    {
+	m->own_violation = 1;
+	snprintf (m->own_detail, sizeof m->own_detail, "%dx%d image, stride %d: describes %zu bytes of pixels, the block pixman allocated holds %zu",
+		  img->bits.width, img->bits.height, s->stride, s->storage, have);
+    }
+}
+
 static void
 step_image_op (machine_t *m, const sim_op_t *op, const int64_t *a, int n, mstep_t *st)
 {
@@ -750,6 +767,7 @@ step_image_op (machine_t *m, const sim_op_t *op, const int64_t *a, int n, mstep_
 	    s->stride = pixman_image_get_stride (img);
 	    s->lowest = (uint8_t *)pixman_image_get_data (img);
 	    s->storage = (size_t)s->stride * g.h;
+	    check_own_storage (m, s, img);
 	    /* no_clear leaves the bytes undefined: define them, as a caller must */
 	    if (g.flags & 4) fill_bytes (s->lowest, s->storage, g.fillseed, g.fmt);
 	}
@@ -776,6 +794,34 @@ step_image_op (machine_t *m, const sim_op_t *op, const int64_t *a, int n, mstep_
 	    pixman_image_set_accessors (img, acc_read, acc_write);
 	    s->accessors = 1;
 	}
+	return;
+    }
+    case MOP_BITS_HUGE:
+    {
+	/* geometry from a small table: storage of 4 GiB and a little (or exactly), one control below 2 GiB.
+	 * calloc()ed memory of this size is only backed by pages that get touched. */
+	static const struct { pixman_format_code_t fmt; int w, h; } big[] = {
+	    { PIXMAN_a8, 65536, 65537 }, { PIXMAN_a8, 65536, 65536 }, { PIXMAN_a8r8g8b8, 32768, 32769 },
+	    { PIXMAN_r5g6b5, 32768, 65538 }, { PIXMAN_a8, 32768, 131073 }, { PIXMAN_a8, 40000, 40000 },
+	    { PIXMAN_a8r8g8b8, 16384, 65537 }, { PIXMAN_a1, 262144, 131073 },
+	};
+	int v = (int)sim_mod (A (1), (int)(sizeof big / sizeof big[0])), k;
+	pixman_image_t *img;
+	if (s->used || !m->allow_huge) return;
+	st->executed = 1;
+	st->has_status = 1;
+	img = pixman_image_create_bits (big[v].fmt, big[v].w, big[v].h, NULL, 0);
+	st->ret = img != NULL;
+	if (!img) return;               /* refusing is fine */
+	install_new_image (m, slot, MOP_BITS, img, op);
+	s->lib_owned = 1;
+	s->stride = pixman_image_get_stride (img);
+	s->lowest = (uint8_t *)pixman_image_get_data (img);
+	s->storage = (size_t)s->stride * big[v].h;
+	s->fmt = big[v].fmt; s->w = big[v].w; s->h = big[v].h;
+	for (k = 0; k < sim_n_formats; k++) if (sim_formats[k] == big[v].fmt) s->fmt_idx = k;
+	st->created_slot = slot;
+	check_own_storage (m, s, img);
 	return;
     }
     case MOP_SOLID: case MOP_LINEAR: case MOP_RADIAL: case MOP_CONICAL:
@@ -1452,7 +1498,7 @@ machine_step (machine_t *m, const sim_op_t *op, int op_index, mstep_t *st)
 	fentry = (int)sim_clamp (op->a[2], 0, 3);
     }
     sim_alloc_enter (op_index, fmode, fk, fentry);
-    if (op->kind <= MOP_SET_DITHER_OFFSET || op->kind == MOP_ALIAS) step_image_op (m, op, a, n, st);
+    if (op->kind <= MOP_SET_DITHER_OFFSET || op->kind == MOP_ALIAS || op->kind == MOP_BITS_HUGE) step_image_op (m, op, a, n, st);
     else if (op->kind <= MOP_COMPOSITE_TRIS || op->kind == MOP_SCRIBBLE) step_draw_op (m, op, a, n, st);
     else if (op->kind <= MOP_GLYPHS) step_glyph_op (m, op, a, n, st);
     else if (op->kind <= MOP_R_FINI) step_region_op (m, op, a, n, st);
